@@ -72,6 +72,23 @@ def run(chk, tier, seed):
             return dict(e="clean", label="argv", argv=a, rc=o.rc if o.rc is not None else -9, errempty=0 if o.err.strip() else 1,
                         clean=1 if o.ok_alphabet((0, 1)) else 0, err=o.err.decode("latin1")[-300:])
         events += common.pmap(doargv, argvs)
+        # "every command line" includes how the program itself was named: found through PATH by its bare name, by a relative path,
+        # and with an empty argv[0]
+        exedir, exename = os.path.dirname(exe), os.path.basename(exe)
+
+        def doargv0(fa):
+            form, a = fa
+            if form == "bare":
+                o = common.run([exename] + a, stdin=b"", timeout=20, env={"PATH": exedir + os.pathsep + os.environ.get("PATH", "")})
+            elif form == "relative":
+                o = common.run(["./" + exename] + a, stdin=b"", timeout=20, cwd=exedir)
+            else:
+                o = common.run(["bash", "-c", 'exec -a "" "$0" "$@"', exe] + a, stdin=b"", timeout=20)
+            return dict(e="clean", label="argv0-" + form, argv=a, rc=o.rc if o.rc is not None else -9, errempty=0 if o.err.strip() else 1,
+                        clean=1 if o.ok_alphabet((0, 1)) else 0, err=o.err.decode("latin1")[-300:])
+        a0 = [(form, a) for form in ("bare", "relative", "empty") for a in ([], ["--help"], ["--nosuch", good], ["--listo"], ["--dialect", "nosuch", good], [good],
+                                                                         ["--dialect", "help"], [os.path.join(scratch, "missing.bbc")])]
+        events += common.pmap(doargv0, a0)
         # valgrind on the pinned configuration: uninitialised option state (no --dialect), a few inputs
         vg = []
         for a in ([good], ["--listo", "3", good], ["--dialect", "Z80", goodle], ["-"]):
